@@ -144,7 +144,7 @@ var specialRegs = map[string]Opnd{
 	"tba": {Kind: "tba", W: 2}, "tba_lo": {Kind: "tba", W: 1}, "tba_hi": {Kind: "tba", Idx: 1, W: 1},
 	"tma": {Kind: "tma", W: 2}, "tma_lo": {Kind: "tma", W: 1}, "tma_hi": {Kind: "tma", Idx: 1, W: 1},
 	"m0": {Kind: "m0", W: 1}, "src_vccz": {Kind: "vccz", W: 1}, "src_execz": {Kind: "execz", W: 1}, "src_scc": {Kind: "scc", W: 1},
-	"src_lds_direct": {Kind: "lds_direct", W: 1},
+	"src_lds_direct":  {Kind: "lds_direct", W: 1},
 	"src_shared_base": {Kind: "aperture", Idx: 0}, "src_shared_limit": {Kind: "aperture", Idx: 1},
 	"src_private_base": {Kind: "aperture", Idx: 2}, "src_private_limit": {Kind: "aperture", Idx: 3},
 	"src_pops_exiting_wave_id": {Kind: "aperture", Idx: 4},
@@ -194,6 +194,13 @@ func ParseOperand(t string) ParsedOpnd {
 	if o, ok := specialRegs[t]; ok {
 		p.Opnd = o
 		return p
+	}
+	if strings.HasPrefix(t, "-0x") {
+		v, err := strconv.ParseUint(t[3:], 16, 64)
+		if err == nil {
+			p.Opnd = Opnd{Kind: "int", Int: -int64(v)}
+			return p
+		}
 	}
 	if strings.HasPrefix(t, "0x") {
 		v, err := strconv.ParseUint(t[2:], 16, 64)
